@@ -43,6 +43,7 @@ thread_local! {
     static LAST: RefCell<Option<PanicRec>> = const { RefCell::new(None) };
     static SOURCES: RefCell<HashMap<String, Vec<String>>> = RefCell::new(HashMap::new());
     static QUIET: RefCell<bool> = const { RefCell::new(true) };
+    static IN_GUARD: RefCell<u32> = const { RefCell::new(0) };
 }
 
 fn source_lines(rel: &str) -> Vec<String> {
@@ -177,6 +178,15 @@ pub fn install_hook() {
             frame: frame.unwrap_or_default(),
         };
         let quiet = QUIET.with(|q| *q.borrow());
+        let in_guard = IN_GUARD.with(|g| *g.borrow()) > 0;
+        if !in_guard || message.starts_with("HARNESS") {
+            // a panic of the harness itself: never swallow it
+            eprintln!(
+                "HARNESS: panic outside a monitored operation: {} at {:?}",
+                message,
+                info.location().map(|l| format!("{}:{}", l.file(), l.line()))
+            );
+        }
         if !quiet {
             eprintln!("panic captured: {} at {}", message, rec.frame.human());
         }
@@ -193,7 +203,10 @@ pub fn set_quiet(q: bool) {
 /// outside /repo/src and message starting with "HARNESS") is re-raised.
 pub fn guarded<R>(f: impl FnOnce() -> R) -> Result<R, Caught> {
     LAST.with(|l| *l.borrow_mut() = None);
-    match panic::catch_unwind(AssertUnwindSafe(f)) {
+    IN_GUARD.with(|g| *g.borrow_mut() += 1);
+    let caught = panic::catch_unwind(AssertUnwindSafe(f));
+    IN_GUARD.with(|g| *g.borrow_mut() -= 1);
+    match caught {
         Ok(r) => Ok(r),
         Err(payload) => {
             if payload.downcast_ref::<BudgetExceeded>().is_some() {
